@@ -45,6 +45,11 @@ def parseSel? (s : String) : Option Sel :=
     | _ => none
   else none
 
+def parsePair? (s : String) : Option (Nat × Nat) :=
+  match parseNatList? s with
+  | some [a, b] => some (a, b)
+  | _ => none
+
 def parseOp? (name : String) (args : List String) : Option (Op Float) :=
   match name, args with
   | "add", [] => some .add | "mul", [] => some .mul | "matmul", [] => some .matmul
@@ -67,6 +72,28 @@ def parseOp? (name : String) (args : List String) : Option (Op Float) :=
   | "transpose", [a, b] => do pure (.transpose (← a.toInt?) (← b.toInt?))
   | "flatten", [a, b] => do pure (.flatten (← a.toInt?) (← b.toInt?))
   | "unfold_dim", [d, sz, st] => do pure (.unfoldDim (← d.toInt?) (← sz.toInt?) (← st.toInt?))
+  | "relu", [] => some .relu | "selu", [] => some .selu | "tanh", [] => some .tanh | "sigmoid", [] => some .sigmoid
+  | "leaky_relu", [sl] => (parseFloat? sl).map .leakyRelu
+  | "softmax", [d] => d.toInt?.map .softmax
+  | "log_softmax", [d] => d.toInt?.map .logSoftmax
+  | "mse_loss", [] => some .mse | "binary_cross_entropy", [] => some .bce
+  | "binary_cross_entropy_with_logits", [] => some .bceLogits
+  | "nll_loss", [l] => (parseNatList? l).map .nll
+  | "cross_entropy", [l] => (parseNatList? l).map .crossEntropy
+  | "linear", [b] => (parseBool? b).map .linear
+  | "conv1d", [b, s, p, d] => do pure (.conv1d (← parseBool? b) (← parseNat? s) (← parseNat? p) (← parseNat? d))
+  | "conv2d", [b, s, p, d] => do pure (.conv2d (← parseBool? b) (← parsePair? s) (← parsePair? p) (← parsePair? d))
+  | "max_pool1d", [k, s, p, d] => do pure (.maxPool1d (← parseNat? k) (← parseNat? s) (← parseNat? p) (← parseNat? d))
+  | "avg_pool1d", [k, s, p, d] => do pure (.avgPool1d (← parseNat? k) (← parseNat? s) (← parseNat? p) (← parseNat? d))
+  | "max_pool2d", [k, s, p, d] => do pure (.maxPool2d (← parsePair? k) (← parsePair? s) (← parsePair? p) (← parsePair? d))
+  | "avg_pool2d", [k, s, p, d] => do pure (.avgPool2d (← parsePair? k) (← parsePair? s) (← parsePair? p) (← parsePair? d))
+  | "unfold", [k, d, s, p, pad] => do pure (.unfold (← parsePair? k) (← parsePair? d) (← parsePair? s) (← parsePair? p) (← parseFloat? pad))
+  | "fold", [o, k, d, s, p] => do pure (.fold (← parsePair? o) (← parsePair? k) (← parsePair? d) (← parsePair? s) (← parsePair? p))
+  | "batch_norm", [hw, hb, tr, eps, rm, rv] => do
+    let rm ← parseOpt? parseFloatList? rm
+    let rv ← parseOpt? parseFloatList? rv
+    let running := match rm, rv with | some a, some b => some (a, b) | _, _ => none
+    pure (.batchNorm (← parseBool? hw) (← parseBool? hb) running (← parseBool? tr) (← parseFloat? eps) 0.0)
   | _, _ => none
 
 def showEv : TrEv → String
